@@ -55,6 +55,12 @@ def corpus(rnd, serial, mem):
             fs.append(("wreq%d" % n, R.request(serial, True, ws, rnd.getrandbits(16), rnd.getrandbits(32), n, R.rbytes(rnd, n * unit))))
             pl = R.rbytes(rnd, n * unit)
             fs.append(("rresp%d" % n, R.frame(R.RRESP, R.transport_opts(serial, R.WS16 if ws else 0, pl), 0, rnd.getrandbits(16), rnd.getrandbits(32), n, pl)))
+    # payloads whose checksum is 0x0000 (all zero; a random prefix followed by its own checksum): a zero checksum
+    # FIELD is a checksum like any other and must be verified
+    fs.append(("wreq-zero", R.request(serial, True, ws, rnd.getrandbits(16), rnd.getrandbits(32), 3, [0] * (3 * unit))))
+    pre = R.rbytes(rnd, 6 * unit - 2)
+    c = R.crc16(pre)
+    fs.append(("wreq-crc0", R.request(serial, True, ws, rnd.getrandbits(16), rnd.getrandbits(32), 6, pre + [c & 0xff, c >> 8])))
     fs.append(("wresp", R.frame(R.WRESP, R.transport_opts(serial, 0, []), 0, 5, 6, 0)))
     pl = R.be(4, rnd.getrandbits(32))
     fs.append(("eunmapped", R.frame(R.RRESP, R.transport_opts(serial, 0, pl), 7, 1, 2, 4, pl)))
@@ -130,13 +136,21 @@ def cases(tier, seed):
             for opts in range(16):
                 for ftype in (R.RREQ, R.RRESP, R.WREQ, R.WRESP, R.META, 4, 14):
                     for n in (0, 1, 2, 3):
-                        for variant in ("good", "badhd", "badpl", "len+1", "len-1"):
+                        for variant in ("good", "badhd", "badpl", "badpl0", "goodpl0", "len+1", "len-1"):
                             u = 2 if opts & 1 else 1
                             pl = R.rbytes(rnd, n * u, special=False)
                             meta = 0 if ftype in (R.RREQ, R.WREQ) else (rnd.choice([1, 2]) if ftype == R.META else rnd.randint(0, 11))
                             if rnd.random() < 0.05:
                                 meta = rnd.randint(0, 15)
                             size = n
+                            if variant in ("badpl0", "goodpl0") and not (pl and opts & R.PLCRC):
+                                continue
+                            if variant == "badpl0":          # checksum field 0000 over a payload whose checksum is not zero
+                                while R.crc16(pl) == 0:
+                                    pl[0] ^= 1
+                            if variant == "goodpl0" and len(pl) > 2:   # payload whose true checksum is 0000
+                                c0 = R.crc16(pl[:-2])
+                                pl = pl[:-2] + [c0 & 0xff, c0 >> 8]
                             if variant == "len+1":
                                 pl = pl + [rnd.getrandbits(8)]
                             elif variant == "len-1":
@@ -145,7 +159,7 @@ def cases(tier, seed):
                                 pl = pl[:-1]
                             fr = R.frame(ftype, opts, meta, rnd.getrandbits(16), rnd.getrandbits(32), size, pl,
                                          hdcrc=(rnd.getrandbits(16) if variant == "badhd" else None),
-                                         plcrc=(rnd.getrandbits(16) if variant == "badpl" else None))
+                                         plcrc=(rnd.getrandbits(16) if variant == "badpl" else 0 if variant == "badpl0" else None))
                             if variant in ("len+1", "len-1") and opts & R.PLCRC:
                                 # checksum of the announced payload, so that only the size rule can object
                                 pass
